@@ -1,7 +1,7 @@
 """helpers shared by the per-property rule modules"""
 import re
 from facts import *   # noqa
-from sym import enum_paths, run_path, strip, show, PathLimit
+from sym import enum_paths, run_path, strip, show, PathLimit, peel_payload
 
 
 def ret_kind(e):
